@@ -1762,13 +1762,26 @@ class SpaceUpdater(SharedSpaceOperations):
         self._instructions.append(
             Instruction(self._update_derived_space, (node,))
         )
-        for _, v in nx.edge_bfs(self.manager._graph, node):
-            self._instructions.append(
-                Instruction(self._update_derived_space, (v,))
-            )
+        self._schedule_subs_update([node])
 
         self._instructions.execute()
         self._update_manager()
+
+    def _schedule_subs_update(self, nodes):
+        """Schedule re-derivation of the sub spaces of ``nodes``
+
+        The sub spaces are updated in a topological order, so that
+        each of them is re-derived after all its bases have been.
+        """
+        graph = self.manager._graph
+        subs = set()
+        for n in nodes:
+            subs.update(nx.descendants(graph, n))
+        subs.difference_update(nodes)
+        for v in nx.topological_sort(graph.subgraph(subs)):
+            self._instructions.append(
+                Instruction(self._update_derived_space, (v,))
+            )
 
     def del_defined_space(self, space):
 
@@ -1785,11 +1798,7 @@ class SpaceUpdater(SharedSpaceOperations):
 
         # Re-derive the sub spaces of the removed spaces,
         # except for those removed themselves
-        for _, v in nx.edge_bfs(self.manager._graph, nodes_removed):
-            if v not in nodes_removed:
-                self._instructions.append(
-                    Instruction(self._update_derived_space, (v,))
-                )
+        self._schedule_subs_update(nodes_removed)
 
         self._graph.remove_nodes_from(nodes_removed)
 
